@@ -423,7 +423,9 @@ class Symex:
                 if it.optional_vars is not None:
                     self.assign(it.optional_vars, v)
             self.block(s.body)
-        elif isinstance(s, (ast.Global, ast.Nonlocal)):
+        elif isinstance(s, ast.Nonlocal):
+            self.frames[-1].setdefault("$nonlocal", set()).update(s.names)
+        elif isinstance(s, ast.Global):
             self.unsupported(s)
         else:
             self.unsupported(s)
@@ -506,6 +508,11 @@ class Symex:
 
     def assign(self, t, v):
         if isinstance(t, ast.Name):
+            if t.id in self.frames[-1].get("$nonlocal", ()):
+                for fr in reversed(self.frames[:-1]):       # nonlocal: rebind in the defining scope
+                    if t.id in fr:
+                        fr[t.id] = v
+                        return
             self.frames[-1][t.id] = v
         elif isinstance(t, (ast.Tuple, ast.List)):
             star = [i for i, e in enumerate(t.elts) if isinstance(e, ast.Starred)]
@@ -854,6 +861,9 @@ class Symex:
             self.unsupported(n, "starred outside call")
         if isinstance(n, ast.Yield):
             self.frames[-1].setdefault("$yield", []).append(self.ev(n.value) if n.value is not None else None)
+            return None
+        if isinstance(n, ast.YieldFrom):
+            self.frames[-1].setdefault("$yield", []).extend(self.iterate(self.ev(n.value), n))
             return None
         if isinstance(n, ast.Slice):
             return slice(self.ev(n.lower) if n.lower else None, self.ev(n.upper) if n.upper else None,
@@ -1320,6 +1330,13 @@ class Symex:
         if name in ("factorial", "math.factorial") and len(args) == 1 and isinstance(args[0], int):
             import math
             return math.factorial(args[0])
+        if name in ("re.findall", "re.split", "re.sub", "re.fullmatch", "re.match") and all(isinstance(a, (str, int)) for a in args) \
+                and not kw:
+            import re as _re
+            r = getattr(_re, short)(*args)
+            if short in ("fullmatch", "match"):     # only the truth value / the matched text of a match object
+                return None if r is None else r.group(0)
+            return r
         if name == "Counter" and len(args) <= 1 and not any(_has_sym(a) for a in args):
             c = {}
             for x in (self.iterate(args[0], node) if args else []):
